@@ -712,7 +712,13 @@ func (g *TxGen) nodeActor(t *rapid.T, a *Actor) *Actor {
 
 func (g *TxGen) proposal(t *rapid.T) *governance.ProposalContent {
 	pc := &governance.ProposalContent{Metadata: &governance.ProposalMetadata{Title: "verif proposal", Description: "generated"}}
-	switch rapid.IntRange(0, 7).Draw(t, "propKind") {
+	propKind := rapid.IntRange(0, 7).Draw(t, "propKind")
+	if strings.Contains(g.Profile, "gov") && rapid.Bool().Draw(t, "propCancelPending") {
+		if ups, err := g.V.Gov.PendingUpgrades(g.V.ctx); err == nil && len(ups) > 0 {
+			propKind = 0 // a pending upgrade exists: cancellations of it are what makes the pending-upgrade records matter
+		}
+	}
+	switch propKind {
 	case 6, 7:
 		// a software upgrade scheduled far in the future (never reached inside a generated history)
 		pc.Upgrade = &governance.UpgradeProposal{Descriptor: upgradeAPI.Descriptor{
@@ -723,6 +729,18 @@ func (g *TxGen) proposal(t *rapid.T) *governance.ProposalContent {
 		}}
 	case 0:
 		pc.CancelUpgrade = &governance.CancelUpgradeProposal{ProposalID: uint64(rapid.IntRange(0, 3).Draw(t, "cancelID"))}
+		// mostly aimed at an upgrade proposal that really passed (a pending upgrade exists for it)
+		if props, err := g.V.Gov.Proposals(g.V.ctx); err == nil && rapid.IntRange(0, 3).Draw(t, "cancelReal") > 0 {
+			var ids []uint64
+			for _, p := range props {
+				if p.Content.Upgrade != nil && p.State == governance.StatePassed {
+					ids = append(ids, p.ID)
+				}
+			}
+			if len(ids) > 0 {
+				pc.CancelUpgrade.ProposalID = ids[rapid.IntRange(0, len(ids)-1).Draw(t, "cancelRealID")]
+			}
+		}
 	case 1, 2:
 		v := q(uint64(rapid.IntRange(0, 20).Draw(t, "newMin")))
 		ch := staking.ConsensusParameterChanges{MinTransferAmount: &v}
